@@ -12,9 +12,11 @@ Only property theorems live here; helper lemmas and the simulation relation `R` 
 `Lemmas/Interp.lean`.
 -/
 import PdfVerif.Lemmas.Interp
+import PdfVerif.Lemmas.ContentLex
 
 namespace PdfVerif.Props.C05
 open PdfVerif PdfVerif.Content PdfVerif.Interp PdfVerif.Gen.Utils PdfVerif.Gen.Interp PdfVerif.TextModel
+open PdfVerif.ContentLex
 
 /-! ## Glyphs: interpreter = text model, for every program of the domain -/
 
@@ -72,6 +74,40 @@ theorem C05_program (env : Env) (fuel : Nat) (ctm : Matrix) (res : Res) (streams
   rw [C05_split, hsound]
   exact stream_sim env (Interp.runForm env fuel) (TextModel.runForm env fuel) (runForm_agree env fuel)
     (MState.init ctm res) (GS.init ctm) res is gl (R_init env ctm res) h
+
+/-! ## From bytes: the split theorem over the lexer model of C14 -/
+
+/-- `PDFContentParser` over a `Contents` array — one scanner whose state survives every stream
+boundary, positions restarting, a newline flushed at the very end — delivers exactly the tokens
+of the concatenated data (`Lexer.specLex`, for which C14 proves `run = specLex` at every buffer
+size). -/
+theorem C05_lex_streams (streams : List Bytes) : lexStreams streams = vals (Lexer.specLex streams.flatten) :=
+  lexStreams_eq streams
+
+/-- **Splitting the bytes** of the page content over several streams — at white space, between
+tokens, or anywhere else — yields the same token-level program, hence (with `C05_split`) the same
+interpreter run. -/
+theorem C05_split_bytes (s1 s2 : List Bytes) (h : s1.flatten = s2.flatten) : contentToks s1 = contentToks s2 := by
+  unfold contentToks
+  rw [lexStreams_eq, lexStreams_eq, h]
+
+/-- ISO 32000-1 7.8.2 reads every stream of a `Contents` array on its own and allows cuts at token
+boundaries only. At such a cut (the scanner is between two tokens after `a`: what white space
+guarantees) both readings coincide: the tokens of `a ++ b` are the tokens of `a` followed by the
+tokens of `b`, each lexed from the initial state. -/
+theorem C05_split_at_token_boundary (a b : Bytes) (h : Between (Lexer.foldBytes Lexer.St.init a 0).1) :
+    vals (Lexer.foldBytes Lexer.St.init (a ++ b) 0).2 =
+      vals (Lexer.foldBytes Lexer.St.init a 0).2 ++ vals (Lexer.foldBytes Lexer.St.init b 0).2 :=
+  (lex_cut_between a b h).1
+
+/-- **The property from the bytes on**: when the byte-level front end (lexer model + assembler)
+turns the streams into the program `is` and the text model gives it the meaning `gl`, the
+interpreter run on those tokens reports exactly `gl`. -/
+theorem C05_program_bytes (env : Env) (fuel : Nat) (ctm : Matrix) (res : Res) (streams : List Bytes)
+    (toks : List Tok) (is : List Instr) (gl : List Glyph) (hlex : contentToks streams = some toks)
+    (hparse : parseInstrs toks [] = (is, [])) (h : TextModel.runPage env fuel ctm res is = some gl) :
+    (Interp.runPage env fuel ctm res [toks]).2 = gl ∧ (Interp.runPage env fuel ctm res [toks]).1.fuelOk = true :=
+  C05_program env fuel ctm res [toks] is gl (by simpa using hparse) h
 
 /-! ## The caller's state after a form is what it was before -/
 
@@ -272,6 +308,23 @@ example : (TextModel.runPage exEnv 3 MATRIX_IDENTITY exRes
     = some [(0, 0, -10), (0, -8, -9), (0, -16, -10)] := by decide +kernel
 
 example : exFontV.vertical = true ∧ exFontV.multibyte = true := by decide
+
+private def asciiBytes (s : String) : Bytes := s.toList.map (fun c => UInt8.ofNat c.toNat)
+
+/-- Bytes `BT /F1 10 Tf (A) T` + `j 1.5 0 Td [(B) -20] TJ ET` (cut in the middle of the operator `Tj`):
+the front end assembles the program (hypothesis `hlex` of `C05_program_bytes`), the same as for the
+uncut bytes (`C05_split_bytes`). -/
+example : contentToks [asciiBytes "BT /F1 10 Tf (A) T", asciiBytes "j 1.5 0 Td [(B) -20] TJ ET"]
+    = some ([⟨.BT, []⟩, ⟨.Tf, [.name "F1", .num 10]⟩, ⟨.Tj, [.str [65]]⟩, ⟨.Td, [.num (3/2), .num 0]⟩,
+             ⟨.TJ, [.arr [.str [66], .num (-20)]]⟩, ⟨.ET, []⟩].flatMap Instr.toks) := by decide +kernel
+
+/-- After `(A) Tj ` (white space last) the scanner is between tokens (hypothesis of
+`C05_split_at_token_boundary`); after `(A) T` it is not. -/
+example : Between (Lexer.foldBytes Lexer.St.init (asciiBytes "(A) Tj ") 0).1 := by
+  unfold Between; decide +kernel
+
+example : ¬ Between (Lexer.foldBytes Lexer.St.init (asciiBytes "(A) T") 0).1 := by
+  unfold Between; decide +kernel
 
 /-- An instruction with an ill-typed operand that meets the hypotheses of `C05_illtyped`. -/
 example : sig (GS.init MATRIX_IDENTITY) Op.Td = some [Ty.num, Ty.num] ∧
